@@ -61,6 +61,16 @@ CLAIMED = {
              "candidate is numerical and not decided.",
         technique="encoder/decoder agreement rule over loop nests and def-use chains (ast), guard proof with small-integer witnesses",
         ref="5 C06"),
+    "C07": dict(
+        text="A homogeneity/bilinear-form domain evaluates ncc, zncc, the per-shell FSC ratio and the window-normalised landscape to "
+             "normal forms and recognises the Cauchy-Schwarz quotient B(x,y)/sqrt(B(x,x)B(y,y)) with one reducer (=> range [-1,1], value 1 on "
+             "identical inputs), degree (0,0) (gain invariance), mean subtraction of both inputs (offset invariance) and symmetry; a sibling-slot "
+             "rule evaluates all 12 model methods and compares the linear pre-processing chain of both operands (same wedge mask from the "
+             "molecule's quaternion, same transform, callee of the matching family); the landscape geometry (zero displacement at shape//2, "
+             "symmetric up-sampling mesh, mesh encoder/decoder identity) is proved on symbolic array shapes. Numerical equality with a reference "
+             "Pearson coefficient is not decided.",
+        technique="abstract interpretation over ast (homogeneity / bilinear normal forms; symbolic array shapes and origins), sibling-slot agreement",
+        ref="5 C07"),
 }
 
 NOT_APPLICABLE = {
